@@ -371,7 +371,11 @@ fn map_indexes(
     indexes: &[usize],
     tree_depth: usize,
 ) -> Result<BTreeMap<usize, usize>, MerkleTreeError> {
-    let num_leaves = 2usize.pow(tree_depth as u32);
+    // the depth of a batch proof comes from untrusted input
+    let num_leaves = u32::try_from(tree_depth)
+        .ok()
+        .and_then(|depth| 2usize.checked_pow(depth))
+        .ok_or(MerkleTreeError::InvalidProof)?;
     let mut map = BTreeMap::new();
     for (i, index) in indexes.iter().cloned().enumerate() {
         map.insert(index, i);
@@ -424,7 +428,9 @@ impl<H: Hasher> VectorCommitment<H> for MerkleTree<H> {
     }
 
     fn get_multiproof_domain_len(proof: &Self::MultiProof) -> usize {
-        1 << proof.depth
+        // the depth comes from untrusted input; no domain has length 0, so a depth which does not
+        // fit the platform never matches an expected domain length
+        1usize.checked_shl(proof.depth as u32).unwrap_or(0)
     }
 
     fn open(&self, index: usize) -> Result<(H::Digest, Self::Proof), Self::Error> {
